@@ -37,3 +37,38 @@ func TestSmokeLogin(t *testing.T) {
 		}
 	})
 }
+
+func TestSmokeGoogleGroups(t *testing.T) {
+	synctest.Test(t, func(t *testing.T) {
+		cfg := DefaultConfig()
+		cfg.Provider, cfg.Slug = "google", "google"
+		cfg.DefaultDomains = nil
+		cfg.Routes[0].Options = map[string]any{"allowed_groups": []string{"eng"}}
+		w := New(cfg, t.TempDir())
+		defer w.Close()
+		w.IdP.AddUser("alice@example.com", true, "eng")
+		w.IdP.AddUser("bob@example.com", true, "ops")
+		if err := w.BootAuth(); err != nil {
+			t.Fatal(err)
+		}
+		if err := w.BootProxy(); err != nil {
+			t.Fatal(err)
+		}
+		for _, u := range []string{"alice", "bob"} {
+			b := w.Browser(u)
+			b.SetCookieRaw("idpuser", u+"%40example.com", GoogleAcct)
+			exs := b.Navigate(Req{URL: "http://app1.sso.sim/hello"}, 14)
+			fmt.Println(u, exs[len(exs)-1].Status, w.Up.Count())
+		}
+		time.Sleep(25 * time.Minute)
+		ex := w.Browser("alice").Do(Req{URL: "http://app1.sso.sim/again"})
+		fmt.Println(ex.Status, w.Up.Count())
+		for _, l := range w.Log.Render() {
+			if len(l) > 160 {
+				l = l[:160]
+			}
+			fmt.Println(l)
+		}
+		fmt.Println(w.ServerErrors())
+	})
+}
